@@ -289,6 +289,115 @@ async fn acc_many_stale_then_live() {
     }
 }
 
+/// acc.err_only_closed / acc.skip_only_dead / acc.ok_acked / acc.next_no_err [C09], and the assumed contract of
+/// `DuplexConnectionRequest::ack` (class A: "Err iff the connecting client went away"), at the boundary values of the
+/// buffer size a client may ask for (0, 1, usize::MAX) and a server may cap it to (`with_max_buf_size`): a LIVE client with
+/// an odd request is still a connection - the acceptor hands it out (what the client can do with a pipe without capacity is
+/// its own problem), it never reports an error while the listener is intact, and the next, ordinary client is accepted too.
+/// Through `Accept::poll_accept` and through the `Stream` view.  (C09-r4m2: `ack` refused size 0 with InvalidInput and
+/// `poll_accept` returned every error other than ConnectionReset - one `connect(0)` ended the server.)
+#[tokio::test]
+async fn acc_odd_buffer_sizes() {
+    use futures_util::StreamExt as _;
+    use std::time::Duration;
+    use tokio::io::{AsyncReadExt as _, AsyncWriteExt as _};
+    for via_stream in [false, true] {
+        for cap in [None, Some(0usize), Some(1), Some(usize::MAX)] {
+            for size in [0usize, 1, usize::MAX, 1024] {
+                let what = format!("client asks for {size} bytes, server cap {cap:?}, via {}", if via_stream { "Stream::poll_next" } else { "Accept::poll_accept" });
+                let (client, incoming) = duplex::pair();
+                let mut incoming = match cap {
+                    Some(c) => incoming.with_max_buf_size(c),
+                    None => incoming,
+                };
+                for (n, ask) in [size, 1024].into_iter().enumerate() {
+                    let who = if n == 0 { "the client with the odd request" } else { "the ordinary client after it" };
+                    let c = client.clone();
+                    let connecting = tokio::spawn(async move { c.connect(ask).await });
+                    let accepted = tokio::time::timeout(Duration::from_secs(5), async {
+                        if via_stream {
+                            incoming.next().await.unwrap_or_else(|| panic!("{what}: the stream of connections ended although a client handle is alive"))
+                        } else {
+                            poll_fn(|cx| Pin::new(&mut incoming).poll_accept(cx)).await
+                        }
+                    })
+                    .await
+                    .unwrap_or_else(|_| panic!("{what}: {who} is waiting in the queue, the acceptor does not hand it out"));
+                    let mut server_side = accepted.unwrap_or_else(|e| {
+                        panic!("{what}: the acceptor reported `{e}` for {who} although the listener is intact (an accept error ends the serving future)")
+                    });
+                    let mut client_side = tokio::time::timeout(Duration::from_secs(5), connecting)
+                        .await
+                        .unwrap_or_else(|_| panic!("{what}: {who} got no answer"))
+                        .unwrap()
+                        .unwrap_or_else(|e| panic!("{what}: {who} is alive and was accepted, but its connect() reported `{e}`"));
+                    // the two ends belong together (whenever the pipe can carry a byte at all)
+                    let effective = cap.map_or(ask, |c| c.min(ask));
+                    if effective > 0 {
+                        client_side.write_all(b"x").await.unwrap();
+                        let mut byte = [0u8; 1];
+                        tokio::time::timeout(Duration::from_secs(5), server_side.read_exact(&mut byte))
+                            .await
+                            .unwrap_or_else(|_| panic!("{what}: the accepted stream is not the other end of what {who} received"))
+                            .unwrap();
+                        assert_eq!(&byte, b"x");
+                    }
+                }
+                drop(client);
+            }
+        }
+    }
+}
+
+/// A.duplex.odd_sizes [C09] (bounded stand-in for `DuplexConnectionRequest::ack`, class A, on the accept path of a real
+/// server; also a replay of acc.err_only_closed and of the accept-loop obligations so.err_only / sv.err_only /
+/// sv.failure_reported): a client that asks for a nonsensical buffer (0 bytes; also 1 and usize::MAX) harms at most its own
+/// connection.  The serving future is still pending afterwards and a fresh, well-behaved client is served.
+#[tokio::test]
+async fn standin_duplex_odd_size_client_then_served() {
+    use std::future::IntoFuture as _;
+    use std::time::Duration;
+    use tokio::io::{AsyncReadExt as _, AsyncWriteExt as _};
+    let (client, incoming) = duplex::pair();
+    let server = crate::server::Server::builder()
+        .with_incoming(incoming)
+        .with_auto_http()
+        .with_shared_service(tower::service_fn(|_: http::Request<crate::Body>| async {
+            Ok::<_, std::convert::Infallible>(http::Response::new(crate::Body::from("hello")))
+        }))
+        .with_tokio();
+    let serving = tokio::spawn(server.into_future());
+    let mut kept = Vec::new();
+    for size in [0usize, 1, usize::MAX, 0, 0] {
+        // the misbehaving client: whatever it gets back - a useless stream or an error - is its own problem; the result is
+        // kept alive so that nothing is cancelled
+        let odd = tokio::time::timeout(Duration::from_secs(5), client.connect(size)).await.unwrap_or_else(|_| panic!("connect({size}) hangs"));
+        kept.push(odd);
+        tokio::time::sleep(Duration::from_millis(50)).await;
+        assert!(
+            !serving.is_finished(),
+            "the serving future ended because one client asked for a buffer of {size} bytes: {:?}",
+            serving.await.map(|r| r.map_err(|e| e.to_string()))
+        );
+        // a well-behaved client is still accepted and served
+        let mut good = tokio::time::timeout(Duration::from_secs(5), client.connect(1024))
+            .await
+            .unwrap_or_else(|_| panic!("after connect({size}): the next client's connect hangs"))
+            .unwrap_or_else(|e| panic!("after connect({size}): the server does not accept connections any more ({e})"));
+        good.write_all(b"GET / HTTP/1.1\r\nHost: localhost\r\nConnection: close\r\n\r\n").await.unwrap();
+        let mut response = Vec::new();
+        tokio::time::timeout(Duration::from_secs(5), good.read_to_end(&mut response))
+            .await
+            .unwrap_or_else(|_| panic!("after connect({size}): the next client got no answer"))
+            .unwrap();
+        let response = String::from_utf8_lossy(&response);
+        assert!(response.starts_with("HTTP/1.1 200") && response.ends_with("hello"), "after connect({size}): unexpected response {response:?}");
+    }
+    assert!(!serving.is_finished(), "the serving future ended");
+    serving.abort();
+    drop(kept);
+}
+
 // ---- A.tls.accept_garbage: the TLS acceptor in front of a transport whose streams are readable AT ONCE ----
 /// Inner acceptor: every stream put into the channel is an incoming connection.  The streams are in-memory pipes,
 /// so whatever the peer wrote before the server accepts is readable in the very first poll (with sockets the same
